@@ -1,4 +1,5 @@
 import JSL.Inv.SchedLemmas
+import JSL.Inv.Outage
 
 /-! The schedule invariant is preserved by the four machine handlers. -/
 
@@ -286,6 +287,106 @@ theorem setupToWorking_sched (w : WF inst) (nn : NonNeg orc inst) {s s' : State}
       obtain ⟨a, b, _, hb, _, hle⟩ := (OpsOK_mem _ _ (hS.ops x1 hx1) o1 hox1).1 hd1
       rw [hb] at hb1; simp at hb1; subst hb1; exact hle
     · exact hS.doneBeforeProc x1 hx1 o1 hox1 j2 hj20 o2 ho2 hmm hd1 hp b1 a2 hb1 ha2
+  · intro j1 hj1 o1 ho1 j2 hj2 o2 ho2 hmm hd1 hd2 hne
+    obtain ⟨x1, hx1, hox1⟩ := doneOld j1 hj1 o1 ho1 hd1
+    obtain ⟨x2, hx2, hox2⟩ := doneOld j2 hj2 o2 ho2 hd2
+    exact hS.doneDisjoint x1 hx1 o1 hox1 x2 hx2 o2 hox2 hmm hd1 hd2 hne
+  · intro t ht hst' o ho
+    exact hS.agvPending t ht hst' o ho
+
+theorem workingToOutage_sched (w : WF inst) (nn : NonNeg orc inst) {s s' : State} {r r' : Rng} {tr : Transition}
+    {m : MachineState} (hI : StructInv inst s) (hS : SchedInv s) (hm : m ∈ s.machines) (hst : m.st = .working)
+    (hown : ∀ x, tr.job = some x → x ∈ m.buffer.store)
+    (h : handleMachineWorkingToOutage orc inst s r tr m = .ok (s', r')) : SchedInv s' := by
+  obtain ⟨mc, outs, j, op, hmc, hmcid, hout, hj, htj, hp, rfl⟩ := workingToOutage_spec h
+  have hs := hI.shape
+  have hjn := hs.jobsNodup w
+  have hmn := hs.machNodup w
+  have hbusy : m.st ≠ .idle := by rw [hst]; simp
+  obtain ⟨hstore, op0, hp0, hm0, hstop0, _⟩ := busy_job hI hS w hm hbusy hj (hown _ htj)
+  have : op0 = op := by rw [hp] at hp0; simpa using hp0.symm
+  subst this
+  have hocc : 0 ≤ occupiedFor outs := occupiedFor_new_nonneg nn.orc (nn.mout mc hmc) hout
+  obtain ⟨l1, l2, hops, _, hopst⟩ := processing?_split' hp
+  have hl1 : ∀ x ∈ l1, x.st = .done := OpsOK_prefix_done op0 (by rw [hopst]; simp) l2 l1 none (hops ▸ hS.ops j hj)
+  have hl2 : allIdle l2 := OpsOK_after op0 (by rw [hopst]; simp) l2 l1 none hl1 (hops ▸ hS.ops j hj)
+  have hkn := hs.ops_key_nodup w hj
+  have hj'ops : (j.replaceOp { op0 with stop := some (s.time + occupiedFor outs) }).ops =
+      l1 ++ { op0 with stop := some (s.time + occupiedFor outs) } :: l2 :=
+    replaceOp_split j l1 op0 _ l2 hops hkn ⟨rfl, rfl⟩
+  have memJ : ∀ x, x ∈ ((s.replaceMachine (m.toOutage outs (s.time + occupiedFor outs))).replaceJob
+        (j.replaceOp { op0 with stop := some (s.time + occupiedFor outs) })).jobs ↔
+      (x = j.replaceOp { op0 with stop := some (s.time + occupiedFor outs) } ∨ (x ∈ s.jobs ∧ x.id ≠ j.id)) := by
+    intro x; exact mem_replaceJob (s := s.replaceMachine _) hjn hj (by simp) x
+  have memM : ∀ y, y ∈ ((s.replaceMachine (m.toOutage outs (s.time + occupiedFor outs))).replaceJob
+        (j.replaceOp { op0 with stop := some (s.time + occupiedFor outs) })).machines ↔
+      (y = m.toOutage outs (s.time + occupiedFor outs) ∨ (y ∈ s.machines ∧ y.id ≠ m.id)) := by
+    intro y; rw [replaceJob_machines]
+    exact mem_replaceMachine hmn hm (by simp [MachineState.toOutage]) y
+  have doneOld : ∀ x, x ∈ ((s.replaceMachine (m.toOutage outs (s.time + occupiedFor outs))).replaceJob
+        (j.replaceOp { op0 with stop := some (s.time + occupiedFor outs) })).jobs → ∀ o ∈ x.ops, o.st = .done →
+      ∃ x0 ∈ s.jobs, o ∈ x0.ops := by
+    intro x hx o ho hst'
+    rcases (memJ x).mp hx with rfl | ⟨hx0, _⟩
+    · rw [hj'ops] at ho
+      rcases List.mem_append.mp ho with ho | ho
+      · exact ⟨j, hj, by rw [hops]; simp [ho]⟩
+      · rcases List.mem_cons.mp ho with rfl | ho
+        · simp [hopst] at hst'
+        · exact absurd (hl2 o ho) (by rw [hst']; simp)
+    · exact ⟨x, hx0, ho⟩
+  have procNew : ∀ o, o ∈ l1 ++ { op0 with stop := some (s.time + occupiedFor outs) } :: l2 → o.st = .processing →
+      o = { op0 with stop := some (s.time + occupiedFor outs) } := by
+    intro o ho hp'
+    rcases List.mem_append.mp ho with ho | ho
+    · exact absurd (hl1 o ho) (by rw [hp']; simp)
+    · rcases List.mem_cons.mp ho with rfl | ho
+      · rfl
+      · exact absurd (hl2 o ho) (by rw [hp']; simp)
+  refine {
+    idleEmpty := ?_, busyHolds := ?_, procOnBusy := ?_, ops := ?_, doneBeforeProc := ?_, doneDisjoint := ?_,
+    agvPending := ?_ }
+  · intro y hy hyst
+    rcases (memM y).mp hy with rfl | ⟨hy0, _⟩
+    · simp [MachineState.toOutage] at hyst
+    · exact hS.idleEmpty y hy0 hyst
+  · intro y hy hyst
+    rcases (memM y).mp hy with rfl | ⟨hy0, hyne⟩
+    · refine ⟨_, (memJ _).mpr (Or.inl rfl), by simp [MachineState.toOutage, hstore], _,
+        processing?_split hj'ops hl1 (by simp [hopst]), by simp [MachineState.toOutage, hm0],
+        by simp [MachineState.toOutage], by simp [MachineState.toOutage]⟩
+    · obtain ⟨j2, hj2, hst2, op2, hp2, h3, h4, h5⟩ := hS.busyHolds y hy0 hyst
+      have hne : j2.id ≠ j.id := other_machine_other_job hI w hm hy0 hyne hstore hst2
+      exact ⟨j2, (memJ j2).mpr (Or.inr ⟨hj2, hne⟩), hst2, op2, hp2, h3, h4, h5⟩
+  · intro x hx o ho hp'
+    rcases (memJ x).mp hx with rfl | ⟨hx0, hxne⟩
+    · rw [hj'ops] at ho
+      have := procNew o ho hp'
+      subst this
+      exact ⟨_, (memM _).mpr (Or.inl rfl), by simp [MachineState.toOutage, hm0], by simp [MachineState.toOutage],
+        by simp [MachineState.toOutage, hstore]⟩
+    · obtain ⟨m3, hm3, h1, h2, h3⟩ := hS.procOnBusy x hx0 o ho hp'
+      have hne : m3.id ≠ m.id := by
+        intro e
+        have : m3 = m := eq_of_mem_of_key_eq (key := fun (z : MachineState) => z.id) hmn hm3 hm e
+        subst this; rw [hstore] at h3; simp at h3; exact hxne h3.symm
+      exact ⟨m3, (memM m3).mpr (Or.inr ⟨hm3, hne⟩), h1, h2, h3⟩
+  · intro x hx
+    simp only [replaceMachine_time, replaceJob_time]
+    rcases (memJ x).mp hx with rfl | ⟨hx0, _⟩
+    · rw [hj'ops]
+      have := hS.ops j hj
+      rw [hops] at this
+      exact OpsOK_extend (b' := s.time + occupiedFor outs) (by omega) op0 hopst l2 l1 none hl1 this
+    · exact hS.ops x hx0
+  · intro j1 hj1 o1 ho1 j2 hj2 o2 ho2 hmm hd1 hp' b1 a2 hb1 ha2
+    obtain ⟨x1, hx1, hox1⟩ := doneOld j1 hj1 o1 ho1 hd1
+    rcases (memJ j2).mp hj2 with rfl | ⟨hj20, _⟩
+    · rw [hj'ops] at ho2
+      have := procNew o2 ho2 hp'
+      subst this
+      exact hS.doneBeforeProc x1 hx1 o1 hox1 j hj op0 (by rw [hops]; simp) hmm hd1 hopst b1 a2 hb1 ha2
+    · exact hS.doneBeforeProc x1 hx1 o1 hox1 j2 hj20 o2 ho2 hmm hd1 hp' b1 a2 hb1 ha2
   · intro j1 hj1 o1 ho1 j2 hj2 o2 ho2 hmm hd1 hd2 hne
     obtain ⟨x1, hx1, hox1⟩ := doneOld j1 hj1 o1 ho1 hd1
     obtain ⟨x2, hx2, hox2⟩ := doneOld j2 hj2 o2 ho2 hd2
